@@ -22,6 +22,11 @@ Theorems about `B6.Model.Avl` (the model of `search/tree.go`) against `B6.Spec.S
   of the theorem to `World.step`, the one the driver runs.
 * `index_add_inv`, `index_remove_inv` — `TreeIndex.Add/Remove` with any token list keep the token tree and
   every per-token list valid (each of those lists is a `treeList`, so the theorems above apply to it).
+* `index_contents` — after any `Add/Remove` history the index denotes exactly the reference function
+  token ↦ sorted values (`index_add_spec`, `index_remove_spec` per call); `index_begin_drain` — `Begin(token)`
+  run to the end returns exactly that set in order (`drain_spec`);
+  `numtokens_counts_emptied_tokens_counterexample` — emptied tokens stay listed and counted.
+* `insLe_equiv` — the uncaught mutation (`<= 0` for `< 0` in the insert retrace) is equivalent on valid trees.
 -/
 namespace B6.Props.C07
 open B6.Model.Avl B6.Model.Avl.Tree B6.Spec B6.Lemmas.Avl B6.Spec.IterClauses
@@ -1281,6 +1286,580 @@ theorem index_remove_inv (ix : Index) (k : Nat) (toks : List Nat) (h : IndexWF i
 example : (((Index.empty.add 5 1 [2, 0, 1]).bind (·.add 3 2 [0])).bind (·.remove 5 [0, 7])).map
     (fun ix => ix.lists.root.toList.map fun (t, l) => (t, l.toList)) =
     some [(0, [(3, 2)]), (1, [(5, 1)]), (2, [(5, 1)])] := by decide
+
+
+/-! ## TreeIndex contents: token ↦ sorted set of values -/
+
+theorem find_none_of_gt {r : Tree α} {x : Nat} (hr : ∀ e ∈ toList r, x < e.1) (q : Nat → Bool)
+    (hq : ∀ y, x < y → q y = false) : (toList r).find? (fun e => q e.1) = none := by
+  rw [List.find?_eq_none]
+  intro e he
+  simp [hq e.1 (hr e he)]
+
+/-- `treeList.Lookup` finds what the reference map holds -/
+theorem lookup_eq (t : Tree α) (k : Nat) (hb : Bst t) : t.lookup k = SortedMap.lookup (toList t) k := by
+  induction t with
+  | nil => rfl
+  | node l x xp b r ihl ihr =>
+    obtain ⟨hbl, hbr, hlt, hgt⟩ := hb
+    have hl : ∀ e ∈ toList l, e.1 < x := fun e he => hlt _ (mem_keys_of_mem_toList he)
+    have hr : ∀ e ∈ toList r, x < e.1 := fun e he => hgt _ (mem_keys_of_mem_toList he)
+    simp only [Tree.lookup, SortedMap.lookup, toList, List.find?_append, List.find?_cons]
+    by_cases c1 : x < k
+    · have hn : (toList l).find? (fun e => e.1 == k) = none :=
+        find_none_of_lt hl (fun y => y == k) (fun y hy => by simp; omega)
+      have : (x == k) = false := by simp; omega
+      simp [c1, hn, this, ihr hbr, SortedMap.lookup]
+    · by_cases c2 : k < x
+      · have hn : (toList r).find? (fun e => e.1 == k) = none :=
+          find_none_of_gt hr (fun y => y == k) (fun y hy => by simp; omega)
+        have : (x == k) = false := by simp; omega
+        simp only [c1, c2, if_false, if_true, ihl hbl, SortedMap.lookup, this, hn]
+        cases (toList l).find? (fun e => e.1 == k) <;> simp
+      · have hxk : x = k := by omega
+        subst hxk
+        have hn : (toList l).find? (fun e => e.1 == x) = none :=
+          find_none_of_lt hl (fun y => y == x) (fun y hy => by simp; omega)
+        simp [hn]
+
+theorem lookup_update (t : Tree α) (k k' : Nat) (f : α → α) :
+    (t.update k f).lookup k' = if k' = k then (t.lookup k).map f else t.lookup k' := by
+  induction t with
+  | nil => simp [Tree.update, Tree.lookup]
+  | node l x xp b r ihl ihr =>
+    unfold Tree.update
+    by_cases c1 : x < k
+    · simp only [c1, if_true]
+      by_cases e : k' = k
+      · subst e; simp [Tree.lookup, c1, ihr]
+      · simp only [e, if_false] at ihr ⊢
+        simp only [Tree.lookup, ihr]
+    · by_cases c2 : k < x
+      · simp only [c1, c2, if_false, if_true]
+        by_cases e : k' = k
+        · subst e; simp [Tree.lookup, c1, c2, ihl]
+        · simp only [e, if_false] at ihl ⊢
+          simp only [Tree.lookup, ihl]
+      · have hxk : x = k := by omega
+        subst hxk
+        simp only [c1, if_false]
+        by_cases e : k' = x
+        · subst e; simp [Tree.lookup]
+        · simp only [e, if_false, Tree.lookup]
+          by_cases h1 : x < k'
+          · simp [h1]
+          · have h2 : k' < x := by omega
+            simp [h1, h2]
+
+theorem sm_lookup_insert (m : SortedMap.SMap α) (k k' : Nat) (p : α) :
+    SortedMap.lookup (SortedMap.insert m k p) k' = if k' = k then some p else SortedMap.lookup m k' := by
+  induction m with
+  | nil =>
+    by_cases e : k' = k
+    · subst e; simp [SortedMap.insert, SortedMap.lookup]
+    · have : (k == k') = false := by simp; omega
+      simp [SortedMap.insert, SortedMap.lookup, e, this]
+  | cons a m ih =>
+    obtain ⟨a, ap⟩ := a
+    unfold SortedMap.insert
+    by_cases c1 : a < k
+    · simp only [c1, if_true]
+      simp only [SortedMap.lookup, List.find?_cons] at ih ⊢
+      by_cases e1 : a = k'
+      · subst e1
+        have : ¬ a = k := by omega
+        simp [this]
+      · have : (a == k') = false := by simpa using e1
+        simp only [this]
+        exact ih
+    · by_cases c2 : a = k
+      · subst c2
+        simp only [c1, if_false, if_true, SortedMap.lookup, List.find?_cons]
+        by_cases e : k' = a
+        · subst e; simp
+        · have : (a == k') = false := by simp; omega
+          simp [this, e]
+      · simp only [c1, c2, if_false, SortedMap.lookup, List.find?_cons]
+        by_cases e : k' = k
+        · subst e; simp
+        · have : (k == k') = false := by simp; omega
+          simp [this, e]
+
+theorem mem_keys_insert_self (m : SortedMap.SMap α) (k : Nat) (p : α) :
+    k ∈ SortedMap.keys (SortedMap.insert m k p) := by
+  induction m with
+  | nil => simp [SortedMap.insert, SortedMap.keys]
+  | cons a m ih =>
+    obtain ⟨a, ap⟩ := a
+    unfold SortedMap.insert
+    split
+    · simp only [SortedMap.keys, List.map_cons, List.mem_cons]; exact Or.inr ih
+    · split <;> simp [SortedMap.keys]
+
+theorem lookup_some_mem_keys {t : Tree α} {k : Nat} {v : α} (h : t.lookup k = some v) : k ∈ keys t :=
+  mem_keys_of_mem_toList (lookup_mem h)
+
+/-- what the index denotes: for every token the sorted list of its values (empty for an unknown token) -/
+def denote (ix : Index) (tok : Nat) : SortedMap.SMap Nat :=
+  match ix.lists.root.lookup tok with
+  | some l => l.toList
+  | none => []
+
+/-- reference semantics: a function token ↦ sorted association list of values -/
+abbrev RefIx := Nat → SortedMap.SMap Nat
+
+def refAdd (r : RefIx) (k g : Nat) : List Nat → RefIx
+  | [] => r
+  | tok :: rest => refAdd (fun t => if t = tok then SortedMap.insert (r tok) k g else r t) k g rest
+
+def refRemove (r : RefIx) (k : Nat) : List Nat → RefIx
+  | [] => r
+  | tok :: rest => refRemove (fun t => if t = tok then SortedMap.erase (r tok) k else r t) k rest
+
+theorem denote_update (ix : Index) (tok : Nat) (lst lst' : TreeList Nat)
+    (hlk : ix.lists.root.lookup tok = some lst) (t : Nat) :
+    denote ⟨{ ix.lists with root := ix.lists.root.update tok (fun _ => lst') }⟩ t =
+      if t = tok then lst'.toList else denote ix t := by
+  unfold denote
+  simp only [lookup_update]
+  by_cases e : t = tok
+  · subst e; simp [hlk]
+  · simp [e]
+
+/-- `Add(v, tokens)`: no panic, everything stays valid, and the denotation changes exactly as in the
+reference (`v` inserted — or its payload replaced — under every listed token, nothing else touched);
+the set of known tokens grows by the listed ones. -/
+theorem index_add_spec (ix : Index) (k g : Nat) (toks : List Nat) (h : IndexWF ix) :
+    ∃ ix', ix.add k g toks = some ix' ∧ IndexWF ix' ∧
+      (∀ t, denote ix' t = refAdd (denote ix) k g toks t) ∧
+      (∀ t, t ∈ keys ix'.lists.root ↔ t ∈ keys ix.lists.root ∨ t ∈ toks) := by
+  induction toks generalizing ix with
+  | nil => exact ⟨ix, rfl, h, fun _ => rfl, by simp⟩
+  | cons tok rest ih =>
+    unfold Index.add
+    cases hlk : ix.lists.root.lookup tok with
+    | some lst =>
+      have hw : WF lst := h.2 (tok, lst) (lookup_mem hlk)
+      obtain ⟨lst', e, hw', hl'⟩ := treelist_insert lst k g hw
+      simp only [e]
+      obtain ⟨ix', e', hwf', hd, hk⟩ := ih _ (indexwf_update ix tok lst' h hw')
+      refine ⟨ix', e', hwf', ?_, ?_⟩
+      · intro t
+        rw [hd t]
+        simp only [refAdd]
+        congr 1
+        funext t'
+        rw [denote_update ix tok lst lst' hlk t']
+        by_cases c : t' = tok
+        · simp [c, hl', denote, hlk]
+        · simp [c]
+      · intro t
+        rw [hk t]
+        simp only [update_keys, List.mem_cons]
+        have : tok ∈ keys ix.lists.root := lookup_some_mem_keys hlk
+        constructor
+        · rintro (h1 | h1)
+          · exact Or.inl h1
+          · exact Or.inr (Or.inr h1)
+        · rintro (h1 | h1 | h1)
+          · exact Or.inl h1
+          · exact Or.inl (h1 ▸ this)
+          · exact Or.inr h1
+    | none =>
+      obtain ⟨lst', e, hw', hl'⟩ := treelist_insert (TreeList.empty : TreeList Nat) k g wf_empty
+      simp only [e]
+      obtain ⟨ls, e2, hw2, hl2⟩ := treelist_insert ix.lists tok lst' h.1
+      simp only [e2]
+      have hwf1 : IndexWF ⟨ls⟩ := by
+        refine ⟨hw2, ?_⟩
+        intro en hen
+        have hen' : en ∈ ls.toList := hen
+        rw [hl2] at hen'
+        rcases SM.mem_insert _ _ _ _ hen' with rfl | hm
+        · exact hw'
+        · exact h.2 en hm
+      obtain ⟨ix', e', hwf', hd, hk⟩ := ih ⟨ls⟩ hwf1
+      refine ⟨ix', e', hwf', ?_, ?_⟩
+      · intro t
+        rw [hd t]
+        simp only [refAdd]
+        congr 1
+        funext t'
+        unfold denote
+        have hb1 : Bst ls.root := hw2.1.1
+        have hb0 : Bst ix.lists.root := h.1.1.1
+        rw [lookup_eq _ _ hb1]
+        have : toList ls.root = SortedMap.insert (toList ix.lists.root) tok lst' := hl2
+        rw [this, sm_lookup_insert, ← lookup_eq _ _ hb0]
+        by_cases c : t' = tok
+        · simp only [c, if_true, hlk]
+          rw [hl']; rfl
+        · simp [c]
+      · intro t
+        rw [hk t]
+        have hkeys : keys ls.root = SortedMap.keys (SortedMap.insert (toList ix.lists.root) tok lst') := by
+          rw [← keys_toList]; exact congrArg SortedMap.keys hl2
+        simp only [hkeys, List.mem_cons]
+        constructor
+        · rintro (h1 | h1)
+          · rcases SM.keys_insert_subset _ _ _ t h1 with rfl | h2
+            · exact Or.inr (Or.inl rfl)
+            · exact Or.inl (by rw [← keys_toList]; exact h2)
+          · exact Or.inr (Or.inr h1)
+        · rintro (h1 | h1 | h1)
+          · exact Or.inl (mem_keys_insert (by rw [keys_toList]; exact h1))
+          · exact Or.inl (h1 ▸ mem_keys_insert_self _ _ _)
+          · exact Or.inr h1
+
+/-- `Remove(v, tokens)`: `v` erased under every listed token; token entries are never removed. -/
+theorem index_remove_spec (ix : Index) (k : Nat) (toks : List Nat) (h : IndexWF ix) :
+    ∃ ix', ix.remove k toks = some ix' ∧ IndexWF ix' ∧
+      (∀ t, denote ix' t = refRemove (denote ix) k toks t) ∧
+      keys ix'.lists.root = keys ix.lists.root ∧ ix'.lists.length = ix.lists.length := by
+  induction toks generalizing ix with
+  | nil => exact ⟨ix, rfl, h, fun _ => rfl, rfl, rfl⟩
+  | cons tok rest ih =>
+    unfold Index.remove
+    cases hlk : ix.lists.root.lookup tok with
+    | some lst =>
+      have hw : WF lst := h.2 (tok, lst) (lookup_mem hlk)
+      obtain ⟨lst', f, e, hw', hl', _⟩ := treelist_delete lst k hw
+      simp only [e]
+      obtain ⟨ix', e', hwf', hd, hk, hn⟩ := ih _ (indexwf_update ix tok lst' h hw')
+      refine ⟨ix', e', hwf', ?_, by rw [hk, update_keys], hn⟩
+      intro t
+      rw [hd t]
+      simp only [refRemove]
+      congr 1
+      funext t'
+      rw [denote_update ix tok lst lst' hlk t']
+      by_cases c : t' = tok
+      · simp [c, hl', denote, hlk]
+      · simp [c]
+    | none =>
+      obtain ⟨ix', e', hwf', hd, hk, hn⟩ := ih ix h
+      refine ⟨ix', e', hwf', ?_, hk, hn⟩
+      intro t
+      rw [hd t]
+      simp only [refRemove]
+      congr 1
+      funext t'
+      by_cases c : t' = tok
+      · simp [c, denote, hlk, SortedMap.erase]
+      · simp [c]
+
+/-! ### any history of `Add` / `Remove` -/
+
+inductive IxOp where
+  | add (k g : Nat) (toks : List Nat)
+  | remove (k : Nat) (toks : List Nat)
+
+def applyIx (ix : Index) : List IxOp → Option Index
+  | [] => some ix
+  | .add k g toks :: ops =>
+    match ix.add k g toks with
+    | some ix' => applyIx ix' ops
+    | none => none
+  | .remove k toks :: ops =>
+    match ix.remove k toks with
+    | some ix' => applyIx ix' ops
+    | none => none
+
+def specIx (r : RefIx) : List IxOp → RefIx
+  | [] => r
+  | .add k g toks :: ops => specIx (refAdd r k g toks) ops
+  | .remove k toks :: ops => specIx (refRemove r k toks) ops
+
+/-- every token that an `Add` of the history mentions -/
+def tokensEver : List IxOp → List Nat
+  | [] => []
+  | .add _ _ toks :: ops => toks ++ tokensEver ops
+  | .remove _ _ :: ops => tokensEver ops
+
+theorem index_contents_from (ix : Index) (h : IndexWF ix) (ops : List IxOp) :
+    ∃ ix', applyIx ix ops = some ix' ∧ IndexWF ix' ∧
+      (∀ t, denote ix' t = specIx (denote ix) ops t) ∧
+      (∀ t, t ∈ keys ix'.lists.root ↔ t ∈ keys ix.lists.root ∨ t ∈ tokensEver ops) := by
+  induction ops generalizing ix with
+  | nil => exact ⟨ix, rfl, h, fun _ => rfl, by simp [tokensEver]⟩
+  | cons op ops ih =>
+    cases op with
+    | add k g toks =>
+      obtain ⟨ix1, e1, h1, d1, k1⟩ := index_add_spec ix k g toks h
+      obtain ⟨ix2, e2, h2, d2, k2⟩ := ih ix1 h1
+      refine ⟨ix2, by simp [applyIx, e1, e2], h2, ?_, ?_⟩
+      · intro t
+        rw [d2 t]
+        simp only [specIx]
+        congr 1
+        funext t'
+        exact d1 t'
+      · intro t
+        rw [k2 t, k1 t]
+        simp only [tokensEver, List.mem_append]
+        constructor
+        · rintro ((a | a) | a)
+          · exact Or.inl a
+          · exact Or.inr (Or.inl a)
+          · exact Or.inr (Or.inr a)
+        · rintro (a | a | a)
+          · exact Or.inl (Or.inl a)
+          · exact Or.inl (Or.inr a)
+          · exact Or.inr a
+    | remove k toks =>
+      obtain ⟨ix1, e1, h1, d1, k1, _⟩ := index_remove_spec ix k toks h
+      obtain ⟨ix2, e2, h2, d2, k2⟩ := ih ix1 h1
+      refine ⟨ix2, by simp [applyIx, e1, e2], h2, ?_, ?_⟩
+      · intro t
+        rw [d2 t]
+        simp only [specIx]
+        congr 1
+        funext t'
+        exact d1 t'
+      · intro t
+        rw [k2 t, k1]
+        simp [tokensEver]
+
+/-- **TreeIndex contents.** After ANY history of `Add(value, tokens)` / `Remove(value, tokens)` on an
+empty index: no call panicked; the token tree and every per-token list are valid AVL trees; under every
+token the index holds exactly the reference's values (`denote` = the history replayed on a plain function
+token ↦ sorted association list; an unknown token and a token whose set has become empty both denote `[]`)
+in strictly increasing order, and the list's `Len()` is their number; the known tokens are exactly the
+tokens some `Add` mentioned, in increasing order, and `NumTokens()` is their number. -/
+theorem index_contents (ops : List IxOp) :
+    ∃ ix, applyIx Index.empty ops = some ix ∧ IndexWF ix ∧
+      (∀ t, denote ix t = specIx (fun _ => []) ops t) ∧
+      (∀ t, SortedMap.Sorted (denote ix t)) ∧
+      (∀ t l, ix.lists.root.lookup t = some l → l.length = ((denote ix t).length : Int)) ∧
+      (∀ t, t ∈ keys ix.lists.root ↔ t ∈ tokensEver ops) ∧
+      (keys ix.lists.root).Pairwise (· < ·) ∧
+      ix.lists.length = ((keys ix.lists.root).length : Int) := by
+  obtain ⟨ix, e, h, d, k⟩ := index_contents_from Index.empty indexwf_empty ops
+  refine ⟨ix, e, h, ?_, ?_, ?_, ?_, ?_, ?_⟩
+  · intro t; rw [d t]; rfl
+  · intro t
+    unfold denote
+    cases hlk : ix.lists.root.lookup t with
+    | none => simp [SortedMap.Sorted, SortedMap.keys]
+    | some l => exact (bst_iff_sorted _).1 (h.2 (t, l) (lookup_mem hlk)).1.1
+  · intro t l hlk
+    have := (h.2 (t, l) (lookup_mem hlk)).2
+    simp only [denote, hlk]
+    exact this
+  · intro t
+    rw [k t]
+    simp [Index.empty, TreeList.empty, keys]
+  · have := (bst_iff_sorted _).1 h.1.1.1
+    rw [← keys_toList]; exact this
+  · have := h.1.2
+    rw [keys_eq]; simpa using this
+
+/-- "tokens with an empty set are absent, `NumTokens` = number of non-empty tokens" does NOT hold of the
+code: `Remove` never drops a token entry, so an emptied token is still listed by `Tokens()` and counted by
+`NumTokens()` (its `Begin` yields nothing, like an unknown token's).  Witness: add 5 under token 0, remove it. -/
+theorem numtokens_counts_emptied_tokens_counterexample :
+    (applyIx Index.empty [.add 5 1 [0], .remove 5 [0]]).map
+      (fun ix => (ix.lists.length, keys ix.lists.root, denote ix 0)) = some (1, [0], []) := by decide
+
+example : (applyIx Index.empty [.add 5 1 [2, 0], .add 3 2 [0], .remove 5 [0, 7], .add 3 9 [0]]).map
+    (fun ix => (denote ix 0, denote ix 2, denote ix 7, ix.lists.length)) =
+    some ([(3, 9)], [(5, 1)], [], 2) := by decide
+
+/-! ### `Begin(token)` iterates that set -/
+
+/-- call `Next` until it returns false (at most `fuel` times), collecting the keys under the iterator -/
+def drain (t : Tree α) : Nat → Iter → List Nat
+  | 0, _ => []
+  | fuel + 1, it =>
+    match it.next t with
+    | (it', true) =>
+      match it'.node with
+      | some (k, _) => k :: drain t fuel it'
+      | none => []
+    | (_, false) => []
+
+theorem filter_ge_sorted (ks : List Nat) (k' : Nat) (hs : ks.Pairwise (· < ·)) (hm : k' ∈ ks) :
+    ks.filter (fun x => decide (k' ≤ x)) = k' :: ks.filter (fun x => decide (k' < x)) := by
+  induction ks with
+  | nil => cases hm
+  | cons a ks ih =>
+    rw [List.pairwise_cons] at hs
+    obtain ⟨h1, h2⟩ := hs
+    simp only [List.mem_cons] at hm
+    by_cases c : a = k'
+    · subst c
+      have e : ks.filter (fun x => decide (a ≤ x)) = ks.filter (fun x => decide (a < x)) := by
+        apply List.filter_congr
+        intro x hx
+        have := h1 x hx
+        simp; omega
+      simp [e]
+    · rcases hm with hm | hm
+      · exact absurd hm.symm c
+      · have : a < k' := h1 k' hm
+        have n1 : ¬ k' ≤ a := by omega
+        have n2 : ¬ k' < a := by omega
+        simp [n1, n2, ih h2 hm]
+
+/-- running `Next` to exhaustion from any unfinished iterator over a tree that is not edited meanwhile
+yields exactly the keys above its position, in order -/
+theorem drain_spec (t : Tree α) (hb : Bst t) (fuel : Nat) (it : Iter) (hw : IterWF t it)
+    (hd : it.done = false) (hn : it.started = true → it.node ≠ none)
+    (hf : ((keys t).filter (fun x => posLt (pos it) x)).length < fuel) :
+    drain t fuel it = (keys t).filter (fun x => posLt (pos it) x) := by
+  induction fuel generalizing it with
+  | zero => omega
+  | succ fuel ih =>
+    have hs : (keys t).Pairwise (· < ·) := by
+      have := (bst_iff_sorted t).1 hb
+      rw [← keys_toList]; exact this
+    unfold drain
+    rcases next_spec t it hb hw hd hn with ⟨k', ⟨a1, a2, a3⟩, ad, l1, l2, l3⟩ | ⟨⟨g1, _⟩, _, g5⟩
+    · cases hnx : it.next t with
+      | mk it' ok =>
+        rw [hnx] at a1 a2 a3 ad
+        simp only at a1 a2 a3 ad
+        subst a1
+        simp only [a2]
+        have e1 : (keys t).filter (fun x => posLt (pos it) x) = (keys t).filter (fun x => decide (k' ≤ x)) := by
+          apply List.filter_congr
+          intro x hx
+          by_cases c : k' ≤ x
+          · have : GtPos (pos it) x := fun c' hc' => Nat.lt_of_lt_of_le (l2 c' hc') c
+            simp [c, (posLt_iff _ _).2 this]
+          · have : ¬ GtPos (pos it) x := fun hg => c (l3 x hx hg)
+            have : posLt (pos it) x = false := by
+              cases hp : posLt (pos it) x with
+              | false => rfl
+              | true => exact absurd ((posLt_iff _ _).1 hp) this
+            simp [c, this]
+        have e2 := filter_ge_sorted (keys t) k' hs l1
+        have hp' : pos it' = some k' := by simp [pos, a2]
+        have e3 : (keys t).filter (fun x => posLt (pos it') x) = (keys t).filter (fun x => decide (k' < x)) := by
+          rw [hp']; rfl
+        rw [e1, e2] at hf ⊢
+        rw [← e3] at hf ⊢
+        congr 1
+        apply ih it' (landed_wf (r := (it', true)) ⟨rfl, a2, a3⟩ l1) ad (fun _ => by rw [a2]; simp)
+        simp only [List.length_cons] at hf
+        omega
+    · cases hnx : it.next t with
+      | mk it' ok =>
+        rw [hnx] at g1
+        simp only at g1
+        subst g1
+        simp only
+        symm
+        rw [List.filter_eq_nil_iff]
+        intro x hx hp
+        exact g5 x hx ((posLt_iff _ _).1 hp)
+
+/-- a fresh iterator run to the end returns every key of the tree, in order -/
+theorem drain_fresh (t : Tree α) (hb : Bst t) :
+    drain t ((keys t).length + 1) {} = keys t := by
+  have hf : (keys t).filter (fun x => posLt (pos ({} : Iter)) x) = keys t := by
+    simp [pos, posLt]
+  have := drain_spec t hb ((keys t).length + 1) {} ⟨fun _ => ⟨rfl, rfl⟩, fun c hc => by cases hc⟩ rfl
+    (fun h => by cases h) (by rw [hf]; omega)
+  rw [hf] at this; exact this
+
+/-- **`Begin(token)` iterates exactly the token's set**: for a well-formed index, the iterator `Begin`
+hands out for a known token — a fresh iterator over that token's list — returns, run to the end, the keys of
+`denote ix token` in increasing order; an unknown token denotes `[]` (and `Begin` gives the empty iterator). -/
+theorem index_begin_drain (ix : Index) (h : IndexWF ix) (tok : Nat) :
+    match ix.lists.root.lookup tok with
+    | some l => drain l.root ((keys l.root).length + 1) {} = (denote ix tok).map (·.1)
+    | none => denote ix tok = [] := by
+  cases hlk : ix.lists.root.lookup tok with
+  | none => simp [denote, hlk]
+  | some l =>
+    have hw : WF l := h.2 (tok, l) (lookup_mem hlk)
+    simp only [denote, hlk]
+    rw [drain_fresh l.root hw.1.1, keys_eq]; rfl
+
+example : drain (node (node nil 1 () 0 nil) 2 () 1 (node (node nil 3 () 0 nil) 4 () (-1) nil)) 5 {} = [1, 2, 3, 4] := by
+  decide
+
+
+/-! ## an equivalent mutant
+
+Changing `if child.balance < 0` into `if child.balance <= 0` in the `child == parent.right` branch of
+`rebalanceAfterInsert` was not caught by the correspondence run.  It cannot be: the two tests differ
+only for `child.balance == 0`, and a child whose subtree has just grown never has balance 0 while its
+parent has balance > 0.  `insLe` is the model of the changed code; on every tree satisfying the
+invariant it returns exactly what `ins` returns. -/
+
+/-- `insRetraceRight` with `<= 0` in place of `< 0` -/
+def insRetraceRightLe (l : Tree α) (k : Nat) (p : α) (b : Int) (r' : Tree α) : Option (Tree α × Bool) :=
+  if b > 0 then
+    match (if r'.rootBal ≤ 0 then rotateRightLeft l k p r' else rotateLeft l k p r') with
+    | some t => some (t, false)
+    | none => none
+  else
+    let b' := b + 1
+    some (node l k p b' r', b' != 0)
+
+/-- `ins` with that change -/
+def insLe : Tree α → Nat → α → Option (Tree α × Bool × Bool)
+  | nil, k, p => some (node nil k p 0 nil, true, true)
+  | node l x xp b r, k, p =>
+    if x < k then
+      match insLe r k p with
+      | none => none
+      | some (r', grew, added) =>
+        if grew then
+          match insRetraceRightLe l x xp b r' with
+          | some (t, g) => some (t, g, added)
+          | none => none
+        else some (node l x xp b r', false, added)
+    else if k < x then
+      match insLe l k p with
+      | none => none
+      | some (l', grew, added) =>
+        if grew then
+          match insRetraceLeft l' x xp b r with
+          | some (t, g) => some (t, g, added)
+          | none => none
+        else some (node l' x xp b r, false, added)
+    else some (node l k p b r, false, false)
+
+theorem insRetraceRightLe_eq (l : Tree α) (k : Nat) (p : α) (b : Int) (r' : Tree α)
+    (h : b > 0 → rootBal r' ≠ 0) : insRetraceRightLe l k p b r' = insRetraceRight l k p b r' := by
+  unfold insRetraceRightLe insRetraceRight
+  by_cases c : b > 0
+  · have := h c
+    by_cases c2 : rootBal r' < 0
+    · have c3 : rootBal r' ≤ 0 := by omega
+      simp only [c, if_true, c2, c3]
+      rfl
+    · have c3 : ¬ rootBal r' ≤ 0 := by omega
+      simp only [c, if_true, c2, c3, if_false]
+      rfl
+  · simp only [c, if_false]
+
+/-- the branch conditions coincide on all reachable states: the changed code and the original compute
+the same result (tree shape, balance factors, flags) for every insertion into a valid tree. -/
+theorem insLe_equiv (t : Tree α) (k : Nat) (p : α) (hb : Bal t) : insLe t k p = ins t k p := by
+  induction t with
+  | nil => rfl
+  | node l x xp b r ihl ihr =>
+    obtain ⟨hl, hr, hbal, h1, h2⟩ := hb
+    unfold insLe ins
+    by_cases c1 : x < k
+    · simp only [c1, if_true, ihr hr]
+      obtain ⟨r', g, a, e, br', hr', nz⟩ := ins_bal r k p hr
+      rw [e]
+      cases g with
+      | false => rfl
+      | true =>
+        simp only [if_true] at hr' ⊢
+        rw [insRetraceRightLe_eq l x xp b r' (fun hpos => nz rfl (by omega))]
+        rfl
+    · simp only [c1, if_false]
+      by_cases c2 : k < x
+      · simp only [c2, if_true, ihl hl]
+        rfl
+      · simp only [c2, if_false]
 
 
 end B6.Props.C07
